@@ -762,6 +762,14 @@ def enumerate_obligations(u):
                     j = rs.match_close(src, m, j) + 1
                     continue
                 if c == '{':
+                    # a brace block inside a requires/ensures clause (`match r { .. },`) is followed by a comma;
+                    # the function body never is
+                    k = rs.match_close(src, m, j) + 1
+                    while k < len(src) and (src[k].isspace() or m[k] != rs.CODE):
+                        k += 1
+                    if k < len(src) and src[k] == ',':
+                        j = k + 1
+                        continue
                     body_open = j
                     break
                 if c == ';':
